@@ -72,7 +72,12 @@ class HedgeLoss(Module, ABC):
             torch.Tensor
         """
         pl = input - target
-        return bisect(self, self(pl), pl.min(), pl.max())
+
+        def fn(cash: Tensor) -> Tensor:
+            # loss of the constant profit-loss ``cash`` for each column
+            return self(cash.expand_as(pl))
+
+        return bisect(fn, self(pl), pl.amin(0), pl.amax(0))
 
 
 class EntropicRiskMeasure(HedgeLoss):
